@@ -62,6 +62,21 @@ func CheckResult(mc *gen.MatchCase, vi *ref.VarInfo, res match.Bindings) (sigCla
 		}
 		return "not-contained:" + strings.ReplaceAll(cls, " ", "_"), "substituted pattern is not contained in the message: " + w
 	}
+	// (d) every binding the match added has a witness in the message: some embedding under
+	// sigma must match each added optional variable against an actual part of the message
+	// (a plain variable always is).  A binding without any witness came from nowhere - say
+	// from a candidate that was rejected.
+	var tracked []string
+	for k := range sigma {
+		if _, given := mc.In[k]; !given && ref.IsOptional(k) && vi.Count[k] > 0 {
+			tracked = append(tracked, k)
+		}
+	}
+	if len(tracked) > 0 && len(tracked) <= 6 {
+		if !ref.FitsWitnessed(mc.Pattern, sigma, mc.Message, ref.FitOpts{In: mc.In}, tracked) {
+			return "binding-without-witness", fmt.Sprintf("no embedding under the returned bindings matches the optional variable(s) %v against an actual part of the message", tracked)
+		}
+	}
 	return "", ""
 }
 
